@@ -142,6 +142,14 @@ func sameWD(a, b g.WarriorData) bool {
 }
 
 func runC14(c *Ctx) {
+	// first of all, before this process has used gmars for anything: the cold-start bursts
+	if c.Only < 0 {
+		children := 6
+		if c.Thorough() {
+			children = 40
+		}
+		coldStarts(c, children)
+	}
 	rounds := int64(160)
 	if c.Thorough() {
 		rounds = 6000
